@@ -73,6 +73,7 @@ type FuncContract struct {
 	Entry        bool // verified with concurrent callers in mind
 	Opts         map[string]string
 	Uses         []string // lemmas assumed at entry (each is proved separately)
+	PureNames    []string // spec functions naming the results of a pure stub
 }
 
 type Monitor struct {
@@ -127,6 +128,7 @@ type Contracts struct {
 	Files       []string
 	Assumptions []string          // mechanical scan: trusted / axiom / assume lines
 	FunTypes    map[string]string // named func type -> spec function giving its (pure) result
+	RawSMT      []string          // raw declarations added to every verification context
 }
 
 func NewContracts() *Contracts {
@@ -241,6 +243,7 @@ func (cs *Contracts) ParseFile(path string) error {
 			cur.Mode = strings.TrimSpace(rest)
 		case "pure":
 			cur.Pure = true
+			cur.PureNames = strings.Fields(rest)
 		case "inline":
 			cur.Inline = true
 		case "trusted":
@@ -397,6 +400,11 @@ func (cs *Contracts) ParseFile(path string) error {
 				cs.Fields[fs[0]] = fm
 			}
 			cs.FieldModes[fs[0]] = append(cs.FieldModes[fs[0]], fm)
+		case "smtdecl":
+			cs.RawSMT = append(cs.RawSMT, rest)
+			if fs := strings.Fields(rest); len(fs) >= 2 && fs[0] == "(declare-sort" {
+				extraSorts[fs[1]] = true
+			}
 		case "funtype":
 			fs := strings.Fields(rest)
 			if len(fs) != 3 || fs[1] != "pure" {
